@@ -217,8 +217,8 @@ def run(ctx):
         r = core.run_impl("taskgraph.py", {"cases": [{"graphs": [tg.spec_of(w["adj"], tasks)], "op": w["op"]}]})["results"][0]
         st = {v[0]: v[1] for v in r[1]}
         if r[0][0] == 0 and st[w["join"]] == 8 and r[0][1][0] == [w["taken"]]:
-            ctx.known("F14", "notify_task_completion cancels the join (and everything behind it) when the conditional has a direct "
+            ctx.known("FTG1", "notify_task_completion cancels the join (and everything behind it) when the conditional has a direct "
                              "edge to it and another branch is drawn: C->[A,T], A->T, T->Z, draw A => T, Z CANCELLED "
                              "(workload/tasks.py:918-922; lemma C07_join_direct_edge_refuted)")
         else:
-            ctx.cov["input_distribution"]["F14_witness_no_longer_fails"] = True
+            ctx.cov["input_distribution"]["FTG1_witness_no_longer_fails"] = True
